@@ -30,7 +30,40 @@ def _deep(ex, env, t):
     return t
 
 
-class PMExec(Exec2):
+class AssertTracking:
+    """mixin for Exec2: `assert` terminators are not walked through — a condition that folds to false ends the path as PANIC,
+    an undecided one is recorded in env["__asserts"] as an obligation for the solver"""
+
+    def _walk(self, body, bb, env, pc, calls, results, depth):
+        stmts = body.blocks.get(bb) or []
+        term = stmts[-1] if stmts else ""
+        m = re.match(r"^assert\((!?)((?:move|copy) [^,]+), \"(.*?)\".*\) -> \[success: (bb\d+).*\];$", term)
+        if m and not term.startswith("assert(const"):
+            if len(results) > self.max_paths or depth > self.max_depth:
+                raise ValueError("path explosion in %s" % body.name)
+            env = dict(env)
+            for st in stmts[:-1]:
+                self._cur_stmts = stmts
+                self._stmt(env, st)
+            v = mk_v2b(self.operand(env, m.group(2)))
+            holds = self._neg(v) if m.group(1) else v
+            if holds in ("true", "(not false)"):
+                pass
+            elif holds in ("false", "(not true)"):
+                env["__panic"] = env.get("__panic", ()) + ("%s: %s" % (body.name.split("::")[-1], m.group(3)[:60]),)
+                results.append((list(pc), "PANIC", list(calls), dict(env)))
+                return
+            else:
+                env["__asserts"] = env.get("__asserts", ()) + ((holds, m.group(3)[:60]),)
+            # continue at the success block: a block holding only a goto keeps the statements from running twice
+            return self._walk_after_assert(body, m.group(4), env, pc, calls, results, depth + 1)
+        return super()._walk(body, bb, env, pc, calls, results, depth)
+
+    def _walk_after_assert(self, body, bb, env, pc, calls, results, depth):
+        return self._walk(body, bb, env, pc, calls, results, depth)
+
+
+class PMExec(AssertTracking, Exec2):
     """Exec2 + folded usize arithmetic (Rem, Div, Mul, Sub), tracked `assert` terminators, sequence objects"""
 
     def __init__(self, *a, **kw):
@@ -99,36 +132,6 @@ class PMExec(Exec2):
         sid = self.seq_of(env, t)
         items, pos = env["__seq"][sid]
         return list(items[pos:])
-
-    # ---- the walk: tracked asserts and per-fork environment updates
-    def _walk(self, body, bb, env, pc, calls, results, depth):
-        stmts = body.blocks.get(bb) or []
-        term = stmts[-1] if stmts else ""
-        m = re.match(r"^assert\((!?)((?:move|copy) [^,]+), \"(.*?)\".*\) -> \[success: (bb\d+).*\];$", term)
-        if m and not term.startswith("assert(const"):
-            if len(results) > self.max_paths or depth > self.max_depth:
-                raise ValueError("path explosion in %s" % body.name)
-            env = dict(env)
-            for st in stmts[:-1]:
-                self._stmt(env, st)
-            v = mk_v2b(self.operand(env, m.group(2)))
-            holds = self._neg(v) if m.group(1) else v
-            if holds in ("true", "(not false)"):
-                pass
-            elif holds in ("false", "(not true)"):
-                env["__panic"] = env.get("__panic", ()) + ("%s: %s" % (body.name.split("::")[-1], m.group(3)[:60]),)
-                results.append((list(pc), "PANIC", list(calls), dict(env)))
-                return
-            else:
-                env["__asserts"] = env.get("__asserts", ()) + ((holds, m.group(3)[:60]),)
-            # continue at the success block without re-running the statements
-            nb = m.group(4)
-            return self._walk_from(body, nb, env, pc, calls, results, depth + 1)
-        return super()._walk(body, bb, env, pc, calls, results, depth)
-
-    def _walk_from(self, body, bb, env, pc, calls, results, depth):
-        return self._walk(body, bb, env, pc, calls, results, depth)
-
 
 
 # ------------------------------------------------------------------------------------------------
